@@ -947,3 +947,56 @@ def queue_put_retries_until_done(ctx, rule):
 
 def is_within_(a, root):
     return any(a is x for x in ast.walk(root))
+
+
+def no_negative_zero_slices(ctx, rule, funcs, what):
+    """`seq[-n:]` is the LAST n items only when n > 0; for n == 0 it is the whole sequence.  Where n is computed (a
+    remainder, a difference) the slice must be guarded by a test that n is non-zero - otherwise data is emitted twice
+    exactly when the computed length is 0 (an input that is a multiple of the block size)."""
+    from ..cfg import cfg_of
+
+    n = 0
+    for f in funcs:
+        for s in walk_local(f.node):
+            if not (isinstance(s, ast.Subscript) and isinstance(s.slice, ast.Slice) and s.slice.upper is None and s.slice.step is None and isinstance(s.slice.lower, ast.UnaryOp) and isinstance(s.slice.lower.op, ast.USub)):
+                continue
+            k = s.slice.lower.operand
+            if isinstance(k, ast.Constant):
+                continue
+            n += 1
+            ctx.analysed(f)
+            names = {x.id for x in ast.walk(k) if isinstance(x, ast.Name)}
+            guarded = False
+            for a in ancestors(s):
+                if a is f.node:
+                    break
+                if isinstance(a, (ast.If, ast.While, ast.IfExp)):
+                    tn = {x.id for x in ast.walk(a.test) if isinstance(x, ast.Name)}
+                    in_body = not any(s is x for o in (a.orelse if isinstance(a.orelse, list) else [a.orelse]) for x in ast.walk(o))
+                    if tn & names and in_body and not (isinstance(a.test, ast.UnaryOp) and isinstance(a.test.op, ast.Not)):
+                        guarded = True
+            if not guarded:
+                # guard clause: `if not n: return/continue` dominating the slice
+                cfg = cfg_of(f.node)
+                sn = cfg.nodes_of(enclosing_stmt(s), ('stmt',))
+                for i in [x for x in walk_local(f.node) if isinstance(x, ast.If)]:
+                    t = i.test
+                    neg = isinstance(t, ast.UnaryOp) and isinstance(t.op, ast.Not)
+                    tn = {x.id for x in ast.walk(t) if isinstance(x, ast.Name)}
+                    if not (tn & names):
+                        continue
+                    edge = cfg.nodes_of(i, 'true' if neg or (isinstance(t, ast.Compare) and isinstance(t.ops[0], (ast.Eq, ast.LtE))) else 'false')
+                    if sn and edge and cfg.path(cfg.entry, sn, avoid=[x for x in cfg.nodes_of(i, ('true', 'false')) if x not in edge]) is None:
+                        pass
+                    zero_edge = cfg.nodes_of(i, 'true') if (neg or (isinstance(t, ast.Compare) and isinstance(t.ops[0], (ast.Eq, ast.LtE)))) else cfg.nodes_of(i, 'false')
+                    if sn and zero_edge and all(cfg.path(z, sn) is None for z in zero_edge):
+                        guarded = True
+            ctx.check(
+                guarded,
+                rule,
+                f'{func_label(f)}|tail-slice-guarded-against-zero',
+                loc(f, s),
+                f'{f.name}: `{src(s, 40)}` is taken only when its length is non-zero',
+                f'{f.name}: `{src(s, 40)}` is the WHOLE sequence when `{src(k, 30)}` is 0 (nothing guards that case): {what}',
+            )
+    ctx.count('computed_tail_slices', n)
